@@ -5,7 +5,7 @@ module name `ingest`.
 ops
   frame <hex>                 → `other` | `ip <v6> <srcMac> <dstMac> <src> <dst> <l4…>` | `err:<kind>`
        l4 = `tcp <sport> <dport> <seq> <ack> <payload> <p> <seg>` | `udp <sport> <dport> <payload> <p> <seg>` | `none`
-  framed <base> <hex>         the same with the Python frame depth of the caller of `Packet(...)` given (RecursionError boundary)
+  framed <base> <cbase> <hex> the same with the Python frame depth / C recursion units of the caller of `Packet(...)` given (RecursionError boundary)
   file <legacy 0|1> <c 0|1> <hex>  → one token per item, `-` for none, or `err:<kind>`
        `dsb:<label>.<client_random>.<value>,…`   (`dsb:` for no keys)
        `pkt:<tag>:<l4>:<sip>:<sport>:<dip>:<dport>:<csumOk>:<seq>:<ts µs>:<smac>:<dmac>:<v6>:<payload>`
@@ -43,10 +43,10 @@ def step (_ : Unit) : List String → Unit × String
     match Bytes.ofHex hex with
     | some f => ((), showD (dissect f))
     | none => ((), "bad-op")
-  | ["framed", base, hex] =>
-    match base.toNat?, Bytes.ofHex hex with
-    | some b, some f => ((), showD (dissectD b f))
-    | _, _ => ((), "bad-op")
+  | ["framed", base, cbase, hex] =>
+    match base.toNat?, cbase.toNat?, Bytes.ofHex hex with
+    | some b, some c, some f => ((), showD (dissectD ⟨b, c⟩ f))
+    | _, _, _ => ((), "bad-op")
   | ["file", legacy, c, hex] =>
     match Bytes.ofHex hex with
     | some f =>
